@@ -74,13 +74,15 @@ def vstep (v : View) : FileD.Stream.Op → View
     let v := if x.charged ≠ 0 then v.fail "charged-twice" else v
     let v := if x.owner.isSome ∨ x.poppedBy.isSome then v.fail "owned-stream-charged" else v
     let v := if x.pending = 0 then v.fail "empty-stream-charged" else v
-    -- Signal wakes the oldest sleeper
-    { v.upd s (fun x => { x with charged := x.charged + 1 }) with asleep := v.asleep.drop 1 }
+    -- whether the Signal reaches a sleeper is NOT assumed here: a processor leaves `asleep` only
+    -- when it is seen popping
+    v.upd s (fun x => { x with charged := x.charged + 1 })
   | .pop p s =>
     let x := v.ss[s]?.getD {}
     let v := if x.charged = 0 then v.fail "pop-of-uncharged" else v
     let v := if x.owner.isSome then v.fail "pop-of-owned" else v
-    v.upd s fun x => { x with charged := x.charged - 1, poppedBy := some p }
+    { v.upd s (fun x => { x with charged := x.charged - 1, poppedBy := some p }) with
+      asleep := v.asleep.filter (· ≠ p) }
   | .park p =>
     let v := if v.total ≠ 0 then v.fail "sleeps-with-work" else v
     { v with asleep := v.asleep ++ [p] }
@@ -112,10 +114,18 @@ def endOk (v : View) : Bool :=
     if x.pending > 0 ∧ x.owner.isNone ∧ x.poppedBy.isNone then x.charged == 1 else x.charged == 0)
   && (v.asleep.isEmpty || v.total == 0)
 
-def streamVerdict (nstreams : Nat) (ops : List FileD.Stream.Op) (settled : Bool) : String :=
+/-- `obs` = the streamer's own state observed at the quiescent end: (goroutines in joinStream's Wait,
+    length of `charged`): nobody may sleep there while a charged stream is unclaimed -/
+def streamVerdict (nstreams : Nat) (ops : List FileD.Stream.Op) (settled : Bool)
+    (obs : Option (Nat × Nat) := none) : String :=
   let v := ops.foldl vstep { ss := List.replicate nstreams {} }
   match v.bad with
   | some why => "fail:" ++ why
-  | none => if !settled then "fail:unsettled" else if endOk v then "ok" else "fail:end-state"
+  | none =>
+    if !settled then "fail:unsettled"
+    else if !endOk v then "fail:end-state"
+    else match obs with
+      | some (w, c) => if w > 0 ∧ c > 0 then "fail:asleep-with-charged" else "ok"
+      | none => "ok"
 
 end FileD.SpecC04
